@@ -106,6 +106,7 @@ struct nni_socket {
 	nni_mtx          s_pipe_cbs_mtx;
 	nni_sock_pipe_cb s_pipe_cbs[NNG_PIPE_EV_NUM];
 	bool             s_want_evs;
+	nni_mtx          s_pipe_ev_mtx; // serializes this socket's pipe events
 
 #ifdef NNG_ENABLE_STATS
 	nni_stat_item st_root;      // socket scope
@@ -537,6 +538,7 @@ sock_destroy(nni_sock *s)
 	nni_cv_fini(&s->s_cv);
 	nni_mtx_fini(&s->s_mx);
 	nni_mtx_fini(&s->s_pipe_cbs_mtx);
+	nni_mtx_fini(&s->s_pipe_ev_mtx);
 	nni_free(s, s->s_size);
 }
 
@@ -584,6 +586,7 @@ nni_sock_create(nni_sock **sp, const nni_proto *proto)
 	NNI_LIST_INIT(&s->s_dialers, nni_dialer, d_node);
 	nni_mtx_init(&s->s_mx);
 	nni_mtx_init(&s->s_pipe_cbs_mtx);
+	nni_mtx_init(&s->s_pipe_ev_mtx);
 	nni_cv_init(&s->s_cv, &s->s_mx);
 	nni_cv_init(&s->s_close_cv, &sock_lk);
 
@@ -1717,7 +1720,6 @@ nni_pipe_run_cb(nni_pipe *p, nng_pipe_ev ev)
 	nng_pipe_cb    cb;
 	void          *arg;
 	bool           wantevs;
-	static nni_mtx serialize = NNI_MTX_INITIALIZER;
 
 	NNI_VERIF_PT(NNI_VP_PIPE_RUN_CB);
 	nni_mtx_lock(&s->s_pipe_cbs_mtx);
@@ -1727,17 +1729,23 @@ nni_pipe_run_cb(nni_pipe *p, nng_pipe_ev ev)
 	nni_mtx_unlock(&s->s_pipe_cbs_mtx);
 
 	if (wantevs) {
-		nni_mtx_lock(&serialize);
+		// The events of one socket are serialized (the order of a
+		// pipe's events is what matters).  Not those of all sockets: a
+		// callback that closes something of ANOTHER socket would wait
+		// for ever for that socket's own pipe events (the reaper's
+		// REM_POST, an endpoint's completion callback delivering
+		// ADD_PRE/ADD_POST), which would be waiting for our lock.
+		nni_mtx_lock(&s->s_pipe_ev_mtx);
 		// this pipe never got an event before, so don't start now
 		if (p->p_last_event == NNG_PIPE_EV_NONE &&
 		    ev != NNG_PIPE_EV_ADD_PRE) {
-			nni_mtx_unlock(&serialize);
+			nni_mtx_unlock(&s->s_pipe_ev_mtx);
 			return;
 		}
 		if (p->p_last_event >= ev) {
 			// this pipe event already was notified, or a "later"
 			// one was, so don't go backwards.
-			nni_mtx_unlock(&serialize);
+			nni_mtx_unlock(&s->s_pipe_ev_mtx);
 			return;
 		}
 		p->p_last_event = ev;
@@ -1746,7 +1754,7 @@ nni_pipe_run_cb(nni_pipe *p, nng_pipe_ev ev)
 		if (cb != NULL) {
 			cb(pid, ev, arg);
 		}
-		nni_mtx_unlock(&serialize);
+		nni_mtx_unlock(&s->s_pipe_ev_mtx);
 	}
 }
 
